@@ -9,13 +9,10 @@ if __name__ == "__main__":
     only = [a for a in sys.argv[1:] if not a.startswith("-")]
     if only:
         units = [(q, N) for q, N in units if any(o in q for o in only)]
-    obls = []
-    for q, N in units:
-        try:
-            u, ob = driver.verify(ct, reg, q, N)
-            obls += ob
-        except Unsupported as ex:
-            print("UNSUPPORTED", q, N, ex)
+    import os
+    obls, infos, undecided, crashes = solve.generate([(q, N, "ALL", "quick", os.environ.get("PYVC_REPO")) for q, N in units])
+    for x in undecided + crashes:
+        print("UNSUPPORTED/CRASH", x)
     t = solve.discharge(obls, timeout_ms=60000, retries=((120000, 1),), learn=True)
     bad = [o for o in obls if (o.status != "proved") != (o.kind == "canary")]
     for o in bad:
